@@ -51,6 +51,53 @@ class HarnessError(Exception):
 
 
 # --------------------------------------------------------------------------------------------
+# Last-resort hang guard (wall clock). It never decides an outcome of a correct run: it only turns
+# a run that would spin forever without reaching any seam into a SimWatchdog in the spinning thread.
+# --------------------------------------------------------------------------------------------
+
+class WallGuard:
+    LIMIT_S = 30.0
+
+    def __init__(self):
+        self.lock = threading.Lock()
+        self.deadline = None
+        self.ident = None
+        self.thread = None
+        self.fired = 0
+
+    def _loop(self):
+        import ctypes
+        import time
+        while True:
+            time.sleep(0.5)
+            with self.lock:
+                if self.deadline is not None and time.monotonic() > self.deadline and self.ident is not None:
+                    self.fired += 1
+                    ctypes.pythonapi.PyThreadState_SetAsyncExc(ctypes.c_ulong(self.ident), ctypes.py_object(SimWatchdog))
+                    self.deadline = time.monotonic() + 5.0   # keep firing until the run unwinds
+
+    def arm(self, seconds=None):
+        import time
+        if self.thread is None:
+            self.thread = threading.Thread(target=self._loop, daemon=True)
+            self.thread.start()
+        with self.lock:
+            self.deadline = time.monotonic() + (seconds or self.LIMIT_S)
+            self.ident = threading.get_ident()
+
+    def running_in(self, ident):
+        with self.lock:
+            self.ident = ident
+
+    def disarm(self):
+        with self.lock:
+            self.deadline = None
+
+
+GUARD = WallGuard()
+
+
+# --------------------------------------------------------------------------------------------
 # Canonical form of BareScript values (for histories, comparison with reference models)
 # --------------------------------------------------------------------------------------------
 
@@ -146,6 +193,10 @@ class Stats:
         for s in other.samples:
             if len(self.samples) < 5:
                 self.samples.append(s)
+
+    def merge_counts(self, other):
+        """merge everything (samples are handled by the caller)"""
+        self.merge(other)
 
     def to_wire(self):
         return {'c': dict(self.c), 'faults': dict(self.faults), 'probes': dict(self.probes),
@@ -320,8 +371,10 @@ class Scheduler:
                 self.choices.append(pick)
                 task = self.tasks[pick]
                 self.current = task
+                GUARD.running_in(task.thread.ident)
                 task.sem.release()
                 self.main_sem.acquire()
+                GUARD.running_in(threading.get_ident())
                 self.current = None
                 if self.on_step is not None:
                     self.on_step(self, task)
